@@ -4,8 +4,8 @@
    gradient half is a labelled test of the correspondence driver. *)
 From Coq Require Import Arith List Permutation Reals QArith Qcanon.
 From GPV Require Import Base.LinAlg Base.Exec Base.Expr Models.C01_posterior Models.C02_mll Proofs.C02_mll.
-From GPV Require Import Models.C02_priors Proofs.C02_priors.
-From GPV Require Import Base.Det Proofs.C02_det.
+From GPV Require Import Models.C02_priors Proofs.C02_priors Proofs.C02_added.
+From GPV Require Import Base.Det Proofs.C02_det Proofs.C02_route.
 Import ListNotations.
 
 (* LOO: for EVERY size n = k+1 and EVERY index i, the code's sigma_i^2 = 1/[A^-1]_ii and
@@ -195,6 +195,42 @@ Theorem c02_sum_mll_equal_ndata :
 Proof. intros K. exact (@sum_mll_equal_ndata K). Qed.
 Print Assumptions c02_sum_mll_equal_ndata.
 
+(* SumMarginalLogLikelihood(outputs, targets, *params): member k is evaluated on output k, target k and ITS OWN
+   params k; the call is defined only if all lists have the members' length (length_safe_zip).  Any number of
+   members, any member objective [call]. *)
+Theorem c02_sum_mll_routes_own_params :
+  forall (K : Fld) (Mem Out Tgt Par : Type) (call : Mem -> Out -> Tgt -> option Par -> car)
+         ms os ts ps vs k dm do dt dp,
+    sum_route call ms os ts (Some ps) = Some vs -> (k < length ms)%nat ->
+    length os = length ms /\ length ts = length ms /\ length ps = length ms /\ length vs = length ms /\
+    nth k vs (call dm do dt (Some dp)) = call (nth k ms dm) (nth k os do) (nth k ts dt) (Some (nth k ps dp)).
+Proof. intros K Mem Out Tgt Par call ms. exact (@sum_route_params_nth K Mem Out Tgt Par call ms). Qed.
+Print Assumptions c02_sum_mll_routes_own_params.
+
+Theorem c02_sum_mll_routes_plain :
+  forall (K : Fld) (Mem Out Tgt Par : Type) (call : Mem -> Out -> Tgt -> option Par -> car)
+         ms os ts vs k dm do dt,
+    sum_route call ms os ts None = Some vs -> (k < length ms)%nat ->
+    length os = length ms /\ length ts = length ms /\ length vs = length ms /\
+    nth k vs (call dm do dt None) = call (nth k ms dm) (nth k os do) (nth k ts dt) None.
+Proof. intros K Mem Out Tgt Par call ms. exact (@sum_route_plain_nth K Mem Out Tgt Par call ms). Qed.
+Print Assumptions c02_sum_mll_routes_plain.
+
+Theorem c02_sum_mll_params_length_checked :
+  forall (K : Fld) (Mem Out Tgt Par : Type) (call : Mem -> Out -> Tgt -> option Par -> car) ms os ts ps,
+    length ps <> length ms -> sum_route call ms os ts (Some ps) = None.
+Proof. intros K Mem Out Tgt Par call. exact (@sum_route_params_length K Mem Out Tgt Par call). Qed.
+Print Assumptions c02_sum_mll_params_length_checked.
+
+(* giving every member the FIRST member's params instead is a different function (2 members, params 1 and 2) *)
+Theorem c02_sum_mll_first_params_refuted :
+  exists (ps : list Qc),
+    sum_route (K:=QcF) (fun (_ _ _ : unit) (p : option Qc) => match p with Some v => v | None => 0%Qc end)
+              (cons tt (cons tt nil)) (cons tt (cons tt nil)) (cons tt (cons tt nil)) (Some ps)
+    <> Some (map (fun _ => nth 0 ps 0%Qc) ps).
+Proof. exact sum_route_first_params_refuted. Qed.
+Print Assumptions c02_sum_mll_first_params_refuted.
+
 (* the Cholesky path: inv_quad from ANY root L of A equals r^T A^-1 r for ANY inverse *)
 Theorem c02_quad_via_any_root :
   forall (K : Fld) n (L Linv A Ainv r : M),
@@ -228,3 +264,34 @@ Example ex_c02_loo_hypotheses :
   exists Ainv Binv, @is_inverse QcF 3%nat A Ainv /\ @is_inverse QcF 2%nat (@del QcF 1%nat A) Binv.
 Proof. exact ex_loo_hypotheses. Qed.
 Print Assumptions ex_c02_loo_hypotheses.
+
+(* ---- added-loss terms (Module.named_added_loss_terms; model: Models/C02_priors.v named_added = the traversal with
+   the memo on the TERM OBJECTS threaded through the whole module tree).  For EVERY module tree -- any sharing of modules
+   (a module reachable under several names), any nesting, any registration names -- every term object that occurs in
+   the tree is yielded, and hence added by the objective, EXACTLY once *)
+Theorem c02_added_terms_never_twice :
+  forall t, NoDup (map reg_prior (named_added t)).
+Proof. exact named_added_nodup. Qed.
+Print Assumptions c02_added_terms_never_twice.
+
+Theorem c02_added_terms_complete :
+  forall t x, In x (map reg_prior (named_added t)) <-> In x (objs t).
+Proof. exact named_added_complete. Qed.
+Print Assumptions c02_added_terms_complete.
+
+Theorem c02_added_terms_are_the_distinct_objects :
+  forall t, Permutation (map reg_prior (named_added t)) (nodup Nat.eq_dec (objs t)).
+Proof. exact named_added_distinct. Qed.
+Print Assumptions c02_added_terms_are_the_distinct_objects.
+
+(* the traversal that does not hand its memo down to the children yields a term of a shared module twice (witness: the
+   tree of covar_module = ScaleKernel(base) next to model.base_kernel = base) *)
+Theorem c02_added_terms_fresh_memo_refuted :
+  exists t, ~ NoDup (map reg_prior (collect_added_fresh t)) /\ NoDup (map reg_prior (named_added t)).
+Proof. exact collect_added_fresh_refuted. Qed.
+Print Assumptions c02_added_terms_fresh_memo_refuted.
+
+Example ex_c02_added_terms_shared_module :
+  named_added (MNode 0 [(0, 5)] [MNode 1 [] [MNode 2 [(0, 7)] []]; MNode 2 [(0, 7)] []])%nat = [(0, 0, 5); (2, 0, 7)]%nat.
+Proof. exact ex_named_added_shared. Qed.
+Print Assumptions ex_c02_added_terms_shared_module.
